@@ -14,6 +14,14 @@
 //!                  a pending write, after which a consumer attaches.
 //!  * `faults-value`, `faults-map` – random conversations with a finite `empty_timeout`, virtual-time
 //!                  steps and the lane-side faults (alone and in the patterns above).
+//!
+//! With `--prop C17` (inactivity shutdown at the level of the downlink runtime; the vote coordinator
+//! itself is the `vote` engine's) the engine runs instead:
+//!  * `inactivity-directed` – short scenarios in which consumers come and go around the timeout.
+//!  * `inactivity-value`, `inactivity-map` – random conversations of that kind.
+//! Every one of them ends with a final idle period: everybody has left, no traffic for five timeouts.
+//! The C17 rules (`downlink/...`, see `oracle::check_inactivity`) are evaluated in the `faults-*`
+//! parts as well, and the C07 oracles in the `inactivity-*` parts.
 
 mod oracle;
 mod peers;
@@ -67,6 +75,11 @@ fn run_script(cfg: &Config, script: &[Step], rng: &mut Rng, out: &mut CaseOut) {
     out.add("frames-observed", sum.frames);
     out.add("events-delivered-to-consumers", sum.events_delivered);
     out.nontrivial = (sum.consumers_linked >= 2 || (cfg.faults && sum.consumers_linked >= 1)) && sum.events_delivered >= 1;
+    if cfg.inactivity {
+        // a conversation of the C17 parts must also have come to a verdict about its final idle period
+        // (or the runtime had stopped by itself before)
+        out.nontrivial = sum.consumers_linked >= 1 && sum.events_delivered >= 1 && obs.final_idle.is_some() && obs.stuck.is_empty();
+    }
     if out.verbose {
         eprintln!("{}", serde_json_pretty(&oracle::witness(cfg, script, &obs)));
     }
@@ -170,6 +183,25 @@ fn selftest(cfg: &Config, script: &[Step], obs: &run::Obs, out: &mut CaseOut) {
             let mut o = obs.clone();
             o.runtime_alive_at_q = true;
             mutations.push(("runtime-kept-running-after-input-closed", "runtime-not-stopped/", o));
+        }
+    }
+    // C17: the runtime is still running at the end of a final idle period that was judged
+    if let Some(fi) = &obs.final_idle {
+        if fi.runtime_alive_before && fi.stopped && fi.events_after_departure >= 2 && obs.stuck.is_empty() {
+            let mut o = obs.clone();
+            o.runtime_end = None;
+            if let Some(f) = o.final_idle.as_mut() {
+                f.stopped = false;
+            }
+            mutations.push(("runtime-kept-running-through-the-final-idle-period", "downlink/idle-runtime-never-stopped/", o));
+            // ... or it stopped a little too soon after the last reader was dropped
+            if let (Some((te, ms)), Some(last)) = (obs.runtime_end, obs.cons.iter().filter(|c| c.attach_accepted && !c.frames.is_empty()).filter_map(|c| c.reader_drop_ms).max()) {
+                if ms >= last + cfg.timeout_ms && last + 1 >= cfg.timeout_ms {
+                    let mut o = obs.clone();
+                    o.runtime_end = Some((te, last + cfg.timeout_ms - 1));
+                    mutations.push(("runtime-stopped-a-millisecond-early", "downlink/stopped-early/", o));
+                }
+            }
         }
     }
     // socket side
@@ -285,11 +317,52 @@ fn fault_part(s: &mut Session, name: &str, kind: LaneKind, cases: u64) {
 
 const MAX_FAULT_OPS: usize = 120;
 
+fn inactivity_part(s: &mut Session, name: &str, kind: LaneKind, cases: u64) {
+    s.part(
+        name,
+        "seeded conversation of <= 120 steps, empty_timeout 20 / 60 ms of virtual time, no lane-side faults: three to six consumers (all SYNC/KEEP_LINKED combinations, paced and tiny channels in half of the conversations) attach one after the other, sometimes two at a time; each leaves with both halves at once or half by half (up to a timeout apart); after a departure the lane sends 0-3 events with a quiet point after each (two make the read task see the departure, the write task sees it at once) and a gap passes that is well below / 1-3 ms below / at / 1-3 ms above / well above the timeout before the next consumer attaches; now and then the write task is parked on a write to a lane that is not reading when its consumer leaves. Every conversation ends with the final idle period: every brake released, everybody leaves, three lane events with a quiet point after each, then nothing for five timeouts. Rules (C17): the runtime has terminated by itself at the end of the final idle period; it never stops for inactivity while a served consumer listens, nor less than one timeout after a served consumer was attached / its reader left / its command writer left (virtual instants, work in the very instant of the stop skipped). The C07 oracles run as well. Counters `c17/*`; non-trivial when a consumer was linked, an event delivered and the final idle period reached; distinct by the global order of (observer, frame kind) receipts",
+        false,
+        cases,
+        |_i, rng, out| {
+            let (cfg, script) = {
+                let mut g = Gen::new(rng);
+                let cfg = g.inactivity_config(kind);
+                let script = g.inactivity_script(&cfg, MAX_FAULT_OPS);
+                (cfg, script)
+            };
+            run_script(&cfg, &script, rng, out);
+        },
+    );
+}
+
+fn inactivity_parts(s: &mut Session) {
+    s.part(
+        "inactivity-directed",
+        "seven short scenarios x lane kind x options of two consumers x empty_timeout 20 / 60 ms x 5 variants, each ending with the final idle period (everybody has left, three lane events, nothing for five timeouts => the runtime must have terminated by itself): (1) A leaves, the lane is silent, B arrives 1 ms .. 3 timeouts after the write task's lone vote, B leaves; (2) A leaves, two lane events tell the read task 2 ms later, B arrives 1 ms before both votes / at the first / between the two / at the second / after the stop; (3) B arrives less than a timeout after A left; (4) A's reader leaves, its command writer a timeout later; (5) A's command writer closes, A listens for two more timeouts and must be served; (6) nobody ever attaches; (7) three consumers one after the other, each arriving while only the write task's vote is outstanding; counters `c17/*`; distinct by the global order of receipts",
+        false,
+        script::INACTIVITY_CASES,
+        |i, rng, out| {
+            let (cfg, script, name) = script::inactivity_case(i);
+            out.count(&format!("scenario-{name}"));
+            run_script(&cfg, &script, rng, out);
+        },
+    );
+    let cases = s.args.budget(60_000, 1_500_000);
+    inactivity_part(s, "inactivity-value", LaneKind::Value, cases);
+    let cases = s.args.budget(60_000, 1_500_000);
+    inactivity_part(s, "inactivity-map", LaneKind::Map, cases);
+}
+
 fn main() {
     let mut s = Session::new("dlrt");
     if s.args.extra_u64("selftest").unwrap_or(0) > 0 {
         SELFTEST.store(true, std::sync::atomic::Ordering::Relaxed);
         s.note("oracle self-test enabled: accepted executions are perturbed and re-judged");
+    }
+
+    if s.prop() == "C17" {
+        inactivity_parts(&mut s);
+        s.finish()
     }
 
     s.part(
